@@ -14,6 +14,9 @@ import sys
 import time
 
 VERIF = os.path.dirname(os.path.dirname(os.path.abspath(__file__)))
+# where evidence/ and replays/ are written; only sensitivity tooling overrides
+# this (so that runs against a scratch copy never touch the committed evidence)
+OUT = os.environ.get("VERIF_OUT") or VERIF
 PY = os.environ.get("VERIF_PYTHON", "/venv/bin/python")
 
 
@@ -68,7 +71,7 @@ def main():
     # replay files of earlier runs of this property are stale now
     import glob
 
-    for old in glob.glob(os.path.join(VERIF, "replays", f"{prop}-*.json")):
+    for old in glob.glob(os.path.join(OUT, "replays", f"{prop}-*.json")):
         os.remove(old)
 
     work = os.path.join(VERIF, ".work", f"{prop}-{tier}-{os.getpid()}")
@@ -178,8 +181,8 @@ def main():
         "wall_s": round(wall, 2),
         "violations": len(fails),
     }
-    os.makedirs(os.path.join(VERIF, "evidence"), exist_ok=True)
-    harness.write_json(os.path.join(VERIF, "evidence", f"{prop}.json"), evidence)
+    os.makedirs(os.path.join(OUT, "evidence"), exist_ok=True)
+    harness.write_json(os.path.join(OUT, "evidence", f"{prop}.json"), evidence)
 
     shutil.rmtree(work, ignore_errors=True)
     try:
@@ -192,7 +195,7 @@ def main():
         f"{len(nontrivial)} distinct non-trivial, {len(fails)} failing shard(s), {wall:.1f}s"
     )
     if fails:
-        os.makedirs(os.path.join(VERIF, "replays"), exist_ok=True)
+        os.makedirs(os.path.join(OUT, "replays"), exist_ok=True)
         # smallest failing spec first
         fails.sort(key=lambda f: len(json.dumps(f["spec"], default=str)))
         paths = []
@@ -200,7 +203,7 @@ def main():
             h = harness.spec_hash(f["spec"])
             path = os.path.join("replays", f"{prop}-{h}.json")
             harness.write_json(
-                os.path.join(VERIF, path),
+                os.path.join(OUT, path),
                 {"property": prop, "spec": f["spec"], "violations": f["violations"]},
             )
             paths.append(path)
